@@ -524,6 +524,18 @@ class _BNFacade:
         raise Unmodelled("from_file")
 
 
+def wrap_network(real_bn):
+    """a BooleanNetwork OBJECT built by the harness through the API (any declaration order) -> audited handle for the
+    whole symbolic network; its functions are validated against the representative's truth table"""
+    if not CTX.active or CTX.opaque > 0:
+        return real_bn
+    net = CTX.net
+    if set(real_bn.variable_names()) != set(net.names):
+        raise Unmodelled("wrap_network: other variables than the symbolic network")
+    validate_tables(real_bn, ((None,) * net.n, None), "network object")
+    return NetProxy(real_bn, ((None,) * net.n, None))
+
+
 class BNFacadeMeta(type):
     def __instancecheck__(cls, o):
         return isinstance(unwrap(o), REAL["BooleanNetwork"])
@@ -545,10 +557,16 @@ class BNFacade(metaclass=BNFacadeMeta):
 
 # ----------------------------------------------------------------------------- region oracles
 def w_cleanup_network(network):
-    r = REAL["cleanup_network"](unwrap(network))
     if not CTX.active or CTX.opaque > 0 or _untracked(network):
-        return r
-    return NetProxy(r, nctx_of(network))
+        return REAL["cleanup_network"](unwrap(network))
+    CTX.opaque += 1          # a region: whatever it does to the network object, its result must denote the same network
+    try:
+        r = REAL["cleanup_network"](unwrap(network))
+    finally:
+        CTX.opaque -= 1
+    nctx = nctx_of(network)
+    validate_tables(r, nctx, "cleanup_network")
+    return NetProxy(r, nctx)
 
 
 def w_network_to_petrinet(network, symbolic_context=None):
